@@ -1,5 +1,8 @@
 (* Correspondence for C12.  A case is one SixelImageHandler, a list of source images
-   and a sequence of draws (image number, bytes the implementation wrote).
+   and a history of operations on it: draws (image number, bytes the implementation wrote,
+   cache state after), cache-size overrides (DSize), erase / handle (DNop: no bytes, cache
+   untouched) and draws into a writer that fails after `limit` bytes (DFail: a prefix of the
+   cached bytes on a hit; on a miss at most `limit` bytes and nothing cached).
    First component: the bytes of a first draw equal the model's bytes under the
    colour-strip order observed in those very bytes (a std HashMap iteration order,
    which the model takes as a parameter and checks to be an enumeration of the colours
@@ -102,7 +105,11 @@ Fixpoint drawn_before (rows : list (list spx)) (seen : list (list (list spx) * l
    overrides the accounted size so that the eviction loop is reached *)
 Inductive dop :=
 | DDraw (k : nat) (bytes : list N) (size : N) (entries : nat)
-| DSize (n : N).
+| DSize (n : N)
+| DNop (bytes : list N) (size : N) (entries : nat)
+    (* erase / handle: a sixel handler writes nothing and keeps its state *)
+| DFail (k : nat) (limit : nat) (written : list N) (size : N) (entries : nat).
+    (* draw into a writer that accepted `limit` bytes and then failed; draw returned Err *)
 
 Fixpoint run_draws (imgs : list (list (list spx) * N)) (st : hstate)
          (seen : list (list (list spx) * list N))
@@ -110,6 +117,27 @@ Fixpoint run_draws (imgs : list (list (list spx) * N)) (st : hstate)
   match draws with
   | [] => (true, true)
   | DSize n :: r => run_draws imgs (fst st, n) seen r
+  | DNop bytes size entries :: r =>
+      let ok := match bytes with [] => true | _ => false end in
+      let a := ok && (snd st =? size) && Nat.eqb (length (fst st)) entries in
+      let '(a', h') := run_draws imgs st seen r in
+      (a && a', ok && h')
+  | DFail k limit written size entries :: r =>
+      (* the sequence is assembled in memory and written with one write_all BEFORE it is cached:
+         a failed write of a fresh image leaves the cache untouched (the next draw encodes and
+         writes the whole image again); a failed write of a cached image has only promoted it *)
+      let '(rows, key) := nth k imgs ([], 0) in
+      let st' := match c_find key (fst st) with
+                 | Some b => snd (hdraw sixel_cache_limit st key (Some b))
+                 | None => st
+                 end in
+      let a :=
+        match c_find key (fst st) with
+        | Some b => nlist_eqb (firstn limit b) written
+        | None => Nat.leb (length written) limit
+        end && (snd st' =? size) && Nat.eqb (length (fst st')) entries in
+      let '(a', h') := run_draws imgs st' seen r in
+      (a && a', h')
   | DDraw k impl size entries :: r =>
       let '(rows, key) := nth k imgs ([], 0) in
       let st' := snd (hdraw sixel_cache_limit st key (match impl with [] => None | _ => Some impl end)) in
